@@ -14,7 +14,7 @@
 (* Cells: <<dist32, dist64, agg48, agg128, agg256>>; all FALSE in builds    *)
 (* without runtime dispatch (`dyn` = FALSE).                                *)
 (***************************************************************************)
-EXTENDS Generator, Distance, Json, IOUtils, TLCExt
+EXTENDS Generator, Distance, Alloc, Json, IOUtils, TLCExt
 
 Rec == ndJsonDeserialize(IOEnv.TRACE)
 VARIABLES l, seen       \* seen[t]: <<last seq, last observed cells>> of thread t in the current process
@@ -35,7 +35,7 @@ StateOfJson(v, st) ==
 TReset == IsEvent("dreset") /\ seen' = [t \in 0..15 |-> <<0, NoCells>>]
 
 TCall ==
-    /\ IsEvent("dcall") /\ Ev.p = ""
+    /\ IsEvent("dcall") /\ Ev.p = "" /\ AllocOk(Ev.e, Ev.a)     \* also under contention (C18)
     /\ LET v == VariantByName(Ev.v)
            c == CellOf(Ev.op, v) IN
        /\ Ev.seq = seen[Ev.t][1] + 1                               \* per-thread sequence numbers, no gaps
